@@ -1084,8 +1084,15 @@ fn track_episode(dirs: &[DirSpec], st: &mut InvState, fs: &SimFs, r: &Rec) {
     // maintain independently)
     let who: i64 = (r.part as i64 + 1) * 10_000 + r.proc as i64;
     if let Some((idx, fd, listing)) = st.open_ep.get(&who).copied() {
-        if listing {
-            if r.kind == K::FstatAt {
+        // per-entry stats belong to the pass whether they are issued while the
+        // directory stream is open or after it was closed
+        let stat_in_dir = matches!(r.kind, K::FstatAt | K::Stat | K::Lstat) && {
+            let d = st.episodes[idx].dir.clone();
+            let p = if r.path.is_empty() { r.raw.clone() } else { r.path.clone() };
+            k::split_parent(&p).map(|(pd, _)| pd == d).unwrap_or(false)
+        };
+        if listing || stat_in_dir {
+            if stat_in_dir || r.kind == K::FstatAt {
                 let name = r.raw.rsplit('/').next().unwrap_or("");
                 if r.err == 0 {
                     let is_dir = fs.inodes.get(&r.ino).map(|i| i.is_dir()).unwrap_or(false);
@@ -1095,6 +1102,9 @@ fn track_episode(dirs: &[DirSpec], st: &mut InvState, fs: &SimFs, r: &Rec) {
                 } else if r.err == libc::ENOENT || r.err == libc::ESTALE {
                     st.episodes[idx].raced = true;
                 }
+            }
+            if stat_in_dir {
+                return;
             }
             match r.kind {
                 K::Readdir | K::FstatAt => return,
